@@ -410,6 +410,9 @@ def main(prop, tier, seed, extra=None):
     os.makedirs(logdir)
     # tier=parked: harnesses measured as undecidable within reach (kept as documentation, never run)
     harnesses = [h for h in scan_harnesses(prop) if h.tier != "parked" and (tier == "thorough" or h.tier == "quick")]
+    only = os.environ.get("VERIF_ONLY")  # development aid: run the harnesses whose name matches, parked ones included
+    if only:
+        harnesses = [h for h in scan_harnesses(prop) if re.search(only, h.name)]
     ev = {"property_id": prop, "tier": tier, "seed": seed, "level": "model_checking", "violations": 0}
     results = []
     root = None
